@@ -6,6 +6,7 @@ each exactly once; (b) result == reference nest in the *given* value order (flat
 order; split: one nest per output); (c) therefore identical for every strategy.
 """
 import itertools
+import numpy as np
 import multiprocessing
 import concurrent.futures
 import os
@@ -29,6 +30,7 @@ ASSUMPTIONS = [
 ]
 SHARDS = {"quick": 4, "thorough": 16}
 MIN_REACH = {
+    "sweeps_following_an_equal_valued_sweep": {"quick": 10, "thorough": 120},
     "grids_over_512_settings_through_executors": {"quick": 2, "thorough": 3},
     "calls_logged": {"quick": 3000, "thorough": 200000},
     "distinct_completion_orders": {"quick": 40, "thorough": 700},
@@ -129,6 +131,28 @@ def cases(ctx):
         st = {"name": name, "perm_seed": rng.randint(0, 10 ** 9), "seed": rng.randint(2, 999), "workers": 3, "jitter_us": 0, "jitter_seed": 0}
         yield {"combos": combos, "spelling": "dict", "constants": {}, "kind": "int", "split": False, "flat": bool(i % 2),
                "strategy": st, "values_as": "list", "big": True}
+    # a sweep that FOLLOWS, in the same process, a sweep over equal-but-differently-typed values (1, 2 then 1.0, 2.0;
+    # 0.0 then -0.0; True then 1; numpy scalars then Python ones): the function must receive the values of THIS sweep
+    for i in range(ctx.pick(24, 300)):
+        c = _gen_case(rng, {"name": rng.choice(["seq", "shuffle_int", "fake_submit", "threadpool"]), "seed": rng.randint(2, 99),
+                            "perm_seed": i, "workers": 2})
+        how = rng.choice(["int->float", "float->int", "int->npint", "zero-sign", "bool->int"])
+        combos, pre = [], []
+        for a, v in c["combos"]:
+            n = len(v)
+            ints = [3 * j + (i % 2) for j in range(n)]
+            if how == "int->float":
+                pre.append([a, ints]); combos.append([a, [float(x) for x in ints]])
+            elif how == "float->int":
+                pre.append([a, [float(x) for x in ints]]); combos.append([a, ints])
+            elif how == "int->npint":
+                pre.append([a, ints]); combos.append([a, ["np:%d" % x for x in ints]])
+            elif how == "zero-sign":
+                pre.append([a, [0.0] + [float(x) + 1 for x in ints[1:]]]); combos.append([a, [-0.0] + [float(x) + 1 for x in ints[1:]]])
+            else:
+                pre.append([a, [True, False][:max(1, min(n, 2))]]); combos.append([a, [1, 0][:max(1, min(n, 2))]])
+        c["combos"], c["pre_combos"], c["values_as"], c["twin_how"] = combos, pre, "list", how
+        yield c
     # real pools, with per-call jitter to diversify completion orders
     for i in range(ctx.pick(14, 160)):
         name = REAL[i % len(REAL)]
@@ -169,7 +193,15 @@ def run_case(ctx, case):
     import xyzpy
     from xyzpy.utils import XYZError
 
-    combos = [(a, list(v)) for a, v in case["combos"]]
+    combos = [(a, [np.int64(int(x[3:])) if isinstance(x, str) and x.startswith("np:") else x for x in v]) for a, v in case["combos"]]
+    if case.get("pre_combos"):
+        # the earlier sweep of this process (its results are of no interest here)
+        try:
+            with quiet():
+                xyzpy.combo_runner(probe.Probe("int", loglist=[]), {a: list(v) for a, v in case["pre_combos"]}, verbosity=0)
+            ctx.count("sweeps_following_an_equal_valued_sweep")
+        except Exception:
+            pass
     if case.get("big") and case["strategy"]["name"] not in ("seq", "shuffle_int"):
         ctx.count("grids_over_512_settings_through_executors")
     constants = dict(case["constants"])
